@@ -307,6 +307,17 @@ theorem setItem_getItem {α} (mode item : String) (batch : List α) (v : α) (i 
     (setItem mode item batch v).bind (fun b => getItem mode item b) = some v := by
   simp [setItem, getItem, hi, hlt]
 
+/-- `TorchWrapper`: item `k` of a tuple-returning torch dataset is component `index(mode, k)` of that dataset's
+    sample (`TorchWrapper._getitem` = `dataset[idx][ModeWrapper.get_item_index(mode, k)]`, modelled by `getItem`);
+    an item that is not in the mode has no component (the code asserts) -/
+theorem torchWrapper_item {α} (mode item : String) (sample : List α) :
+    getItem mode item sample =
+      (if (mode.splitOn " ").contains item then sample[(mode.splitOn " ").idxOf item]? else none) := by
+  unfold getItem getItemIndex
+  by_cases h : item ∈ mode.splitOn " "
+  · simp [h]
+  · simp [h]
+
 /-- `add_item` is idempotent and makes the item present -/
 theorem addItem_has (mode item : String) (h : hasItem mode item = true) : addItem mode item = mode := by
   simp [addItem, h]
